@@ -53,7 +53,7 @@ def load_known(prop):
     return out
 
 
-def spawn(prop, tier, seed, shard, nshards, budget, max_cases, out, hashseed, only=None):
+def spawn(prop, tier, seed, shard, nshards, budget, max_cases, out, hashseed, only=None, echo=False):
     env = dict(os.environ)
     env["PYTHONHASHSEED"] = str(hashseed)
     env["PYTHONPATH"] = VERIF + os.pathsep + env.get("PYTHONPATH", "")
@@ -66,6 +66,8 @@ def spawn(prop, tier, seed, shard, nshards, budget, max_cases, out, hashseed, on
     ]
     if only:
         cmd += ["--only", only]
+    if echo:
+        cmd += ["--echo"]
     return subprocess.Popen(cmd, env=env, cwd=VERIF, stdout=subprocess.PIPE,
                             stderr=subprocess.STDOUT, text=True)
 
@@ -83,7 +85,7 @@ def spawn_piggyback(prop, tier, seed, out, only=None):
 
 
 def run_shards(prop, tier, seed, nshards, budget, max_cases, only=None, hashseeds=None, piggyback=False,
-               piggy_only=None):
+               piggy_only=None, echo=False):
     tmp = tempfile.mkdtemp(prefix=f"rv-{prop}-")
     procs = []
     results = []
@@ -96,7 +98,7 @@ def run_shards(prop, tier, seed, nshards, budget, max_cases, only=None, hashseed
         for i in range(nshards):
             out = os.path.join(tmp, f"shard{i}.json")
             hs = hashseeds[i] if hashseeds else (0 if tier == "quick" else i)
-            procs.append((i, out, spawn(prop, tier, seed, i, nshards, budget, max_cases, out, hs, only)))
+            procs.append((i, out, spawn(prop, tier, seed, i, nshards, budget, max_cases, out, hs, only, echo)))
         deadline = time.time() + 7 * budget + (900 if piggyback else 120)
         for i, out, p in procs:
             try:
@@ -128,7 +130,7 @@ def merge(results):
         "violations": [], "n_violations": 0, "known": {}, "known_samples": {},
         "monitor_errors": [], "n_monitor_errors": 0, "reach_calls": {},
         "reach_branches": {}, "reach_lines": {}, "fatal": [], "time_capped": 0,
-        "exhausted_by_shard": [], "shards_ok": 0, "hashseeds": [],
+        "exhausted_by_shard": [], "shards_ok": 0, "hashseeds": [], "echo_cases": 0, "echo_scribbled": 0,
     }
 
     def addc(dst, src):
@@ -144,6 +146,8 @@ def merge(results):
             m["shards_ok"] += 1
             m["hashseeds"].append(r.get("hashseed"))
         m["evaluations"] += r["evaluations"]
+        m["echo_cases"] += r.get("echo_cases", 0)
+        m["echo_scribbled"] += r.get("echo_scribbled", 0)
         for c, v in r["classes"].items():
             d = m["classes"].setdefault(c, [0, 0, 0])
             for i in range(3):
@@ -305,6 +309,8 @@ def decide(prop, tier, seed, mod, m, wall, single_case=False):
         "shards": {"ok": m["shards_ok"], "fatal": m["fatal"], "time_capped": m["time_capped"],
                    "hashseeds": m["hashseeds"]},
         "exhaustive_classes_completed": exhaustive_done,
+        "echo": {"cases_run_again_after_modifying_their_results_in_place": m["echo_cases"],
+                 "result_containers_modified": m["echo_scribbled"]},
         "piggyback": m.get("piggyback", "not run in this tier"),
         "verdict": {0: "held", 1: "violated", 2: "inconclusive"}[code],
         "inconclusive_reasons": reasons,
@@ -353,7 +359,8 @@ def main(argv=None):
                              piggy_only=case["index"])
         else:
             res = run_shards(prop, rp.get("tier", "quick"), rp["seed"], 1, 600, 1,
-                             only=f"{case['cls']}:{case['index']}", hashseeds=[rp.get("hashseed", 0)])
+                             only=f"{case['cls']}:{case['index']}", hashseeds=[rp.get("hashseed", 0)],
+                             echo=bool(case.get("echo")))
         m = merge(res)
         os.environ.setdefault("VERIF_REPLAY_DIR", tempfile.gettempdir())
         code, lines, ev = decide(prop, rp.get("tier", "quick"), rp["seed"], mod, m, time.time() - t0, single_case=True)
